@@ -24,6 +24,8 @@ ASSUMPTIONS = [
 ]
 
 SIG = "C02|{}|{}"
+KNOWN_BUF = {"buffer", "Batch", "buffer_size", "current_len", "insert_idx", "priority"}
+KNOWN_PRI = {"priority", "max_priority", "sampled_indices"}
 
 
 def items(tier, seed):
@@ -140,9 +142,10 @@ def canon(bd):
             col0 = np.asarray(buf.buffer[key]).reshape(buf.buffer_size, -1)[:, 0]
             # age of the transition whose tag sits in each written slot (slots < current_len)
             ages = tuple(int(round(n - (float(v) - bd.off[t]) / 10.0)) for v in col0[: buf.current_len])
-        out.append((buf.insert_idx, buf.current_len, ages))
+        hid = e1.hidden_state(buf, KNOWN_BUF) + (e1.hidden_state(buf.priority, KNOWN_PRI) if hasattr(buf, "priority") else ())
+        out.append((buf.insert_idx, buf.current_len, ages, hid))
     if hasattr(bd.buf, "buffers"):
-        return (tuple(out), bd.buf.selected_task, tuple(sorted(bd.buf.active_buffers)))
+        return (tuple(out), bd.buf.selected_task, tuple(sorted(bd.buf.active_buffers)), e1.hidden_state(bd.buf, {"buffers", "selected_task", "active_buffers", "sampled_task_idx"}))
     return tuple(out)
 
 
@@ -370,5 +373,6 @@ def work(item, col):
 
 
 def _wrapped(k, cap):
-    per = k[0] if (len(k) == 3 and isinstance(k[0], tuple) and k[0] and isinstance(k[0][0], tuple)) else k
-    return any(c[1] == cap and c[0] != 0 for c in per)
+    # multi-task keys are (per-task tuple, selected, active, hidden); single buffers are the per-task tuple itself
+    per = k[0] if (len(k) == 4 and isinstance(k[1], int)) else k
+    return any(isinstance(c, tuple) and len(c) >= 2 and c[1] == cap and c[0] != 0 for c in per)
